@@ -266,6 +266,9 @@ func vhCompareBK(storage SlabStorage, v Value, s Storable) (bool, error) {
 	case vBlobKey:
 		bl, ok := s.(vBlob)
 		return ok && bl.n == k.n, nil
+	case vU64: // the stored form of a key (mutable iteration looks keys up by their stored value)
+		u, ok := s.(vU64)
+		return ok && u == k, nil
 	}
 	return false, fmt.Errorf("unexpected key value %T", v)
 }
